@@ -8,8 +8,11 @@ import (
 	"os"
 	"sort"
 
+	"github.com/advancedclimatesystems/gonnx"
+	"github.com/advancedclimatesystems/gonnx/onnx"
 	"github.com/advancedclimatesystems/gonnx/ops"
 	"github.com/advancedclimatesystems/gonnx/ops/opset13"
+	"google.golang.org/protobuf/proto"
 	"gorgonia.org/tensor"
 )
 
@@ -79,6 +82,9 @@ func execGateCase(c *Case) []ModeResult {
 	verdict, short := gateOnce(nil, c, false)
 	v2, s2 := gateOnce(nil, c, true)
 	out := []ModeResult{{"gate", verdict, short}, {"gate:spare-capacity", v2, s2}}
+	if v4, s4, ok := gateThroughRun(c); ok {
+		out = append(out, ModeResult{"gate:run-node-without-used-outputs", v4, s4})
+	}
 	if gateHasEqualNeighbours(c) {
 		// consecutive positions of one element type and shape may hold the very same tensor object (Gather(x, x), Concat(v, v, v)):
 		// every position is still checked against ITS constraint
@@ -314,4 +320,79 @@ func execRegistryCase(c *Case) []ModeResult {
 		out = append(out, ModeResult{"registry", "pass", ""})
 	}
 	return out
+}
+
+// gateThroughRun: the same input list arrives at the gate through Model.Run, at a node none of whose outputs is used (its only
+// output name is empty - all outputs of an operator may be omitted) beside a node that produces the graph output. The gate belongs to
+// the node, not to its outputs: a list the gate refuses makes Run fail with an input error all the same. Only refused lists are
+// decided here (an accepted list goes on into Apply with placeholder operands), and only operators that can be initialised from a
+// node without attributes.
+func gateThroughRun(c *Case) (string, string, bool) {
+	var x gateX
+	if err := json.Unmarshal(c.X, &x); err != nil || x.Expect != "error" {
+		return "", "", false
+	}
+	probe, err := opset13.GetOperator(c.Op)
+	if err != nil {
+		return "", "", false
+	}
+	node := &onnx.NodeProto{OpType: c.Op, Name: "gated", Output: []string{""}}
+	feed := gonnx.Tensors{}
+	g := &onnx.GraphProto{Name: "g"}
+	for i, d := range x.Dts {
+		if d == "nil" {
+			node.Input = append(node.Input, "")
+			continue
+		}
+		name := fmt.Sprintf("in%d", i)
+		node.Input = append(node.Input, name)
+		t, err := MkTensor(AbsTensor{Dt: d, Shape: []int{1}, Data: []Elem{IntElem(1)}})
+		if err != nil {
+			return "", "", false
+		}
+		feed[name] = t
+		g.Input = append(g.Input, &onnx.ValueInfoProto{Name: name})
+	}
+	if guardInline(func() Observation {
+		if err := probe.Init(node); err != nil {
+			return observeErr(err)
+		}
+		return Observation{Kind: "value"}
+	}).Kind != "value" {
+		return "", "", false
+	}
+	feed["z"] = tensor.New(tensor.WithShape(1), tensor.WithBacking([]float32{-1}))
+	g.Input = append(g.Input, &onnx.ValueInfoProto{Name: "z"})
+	g.Node = []*onnx.NodeProto{node, {OpType: "Relu", Name: "user", Input: []string{"z"}, Output: []string{"y"}}}
+	g.Output = []*onnx.ValueInfoProto{{Name: "y"}}
+	b, err := proto.Marshal(mkModel(g, 13))
+	if err != nil {
+		return "", "", false
+	}
+	o := guard(func() Observation {
+		m, err := gonnx.NewModelFromBytes(b)
+		if err != nil {
+			return Observation{Kind: "harness", Note: "load: " + err.Error()}
+		}
+		if _, err := m.Run(feed); err != nil {
+			return observeErr(err)
+		}
+		return Observation{Kind: "value"}
+	})
+	switch {
+	case o.Kind == "harness":
+		return "", "", false // (a loader that refuses such a graph: nothing to decide)
+	case o.Kind == "panic":
+		return "violation:Run panicked: " + o.Note, o.Short(), true
+	case o.Kind != "error":
+		return fmt.Sprintf("violation:Run accepted a node whose input list %v its gate refuses", x.Dts), o.Short(), true
+	case len(x.Errc) > 0:
+		for _, e := range x.Errc {
+			if e == o.Errc {
+				return "pass", o.Short(), true
+			}
+		}
+		return fmt.Sprintf("violation:Run failed with error class %s (%v), expected one of %v", o.Errc, o.Err, x.Errc), o.Short(), true
+	}
+	return "pass", o.Short(), true
 }
